@@ -9,6 +9,8 @@ import ChalkModel.Eval
 import ChalkModel.Contract
 import ChalkModel.Compat
 import ChalkModel.AutoTraits
+import ChalkModel.Enumeration
+import ChalkModel.AnswerStream
 
 namespace Chalk.Sem
 open Chalk Chalk.Sexp
@@ -130,6 +132,22 @@ def autoDataOfSexp? : Sexp → Option AutoData
              provided := provided, autoTraits := ← strList? autos, coTraits := ← strList? cos }
   | _ => none
 
+def storedOfSexp? : Sexp → Option StoredAnswer
+  | .list [k, a, d, i] => do some ⟨← k.nat?, ← bool? a, ← bool? d, ← bool? i⟩
+  | _ => none
+
+def yieldToSexp : Yield × Bool → Sexp
+  | (.definite k, m) => .list [.atom "definite", sNat k, sBool m]
+  | (.ambiguous k, m) => .list [.atom "ambiguous", sNat k, sBool m]
+  | (.floundered, m) => .list [.atom "floundered", sBool m]
+
+def EnumVerdict.toSexp : EnumVerdict → Sexp
+  | .accepted st => .list [.atom "accepted", .atom st]
+  | .notSound i σ => .list [.atom "rejected", .atom "enumerated_answer_does_not_hold", .list (sNat i :: σ.map tmToSexp)]
+  | .duplicate i j => .list [.atom "rejected", .atom "answer_enumerated_twice", .list [sNat i, sNat j]]
+  | .misses θ => .list [.atom "rejected", .atom "enumeration_misses_solution", .list (θ.map tmToSexp)]
+  | .inconclusive why => .list [.atom "inconclusive", .atom why]
+
 def opsSem : Sexp → Option Sexp
   | .list [.atom "decide", p, g, fuel] => do
       some (.list [.atom "ok", (evalGoal (← programOfSexp? p) (← fuel.nat?) [] (← goalOfSexp? g)).toSexp])
@@ -142,6 +160,21 @@ def opsSem : Sexp → Option Sexp
       some (match judgeGround v (groundAnswerOfSexp ans) with
         | .list [.atom "rejected", .atom c, d] => .list [.atom "rejected", .atom (c ++ "@" ++ ctx), d]
         | r => r)
+  | .list [.atom "stream", fl, .list answers, .list decisions] => do
+      let r := solveMultiple (← bool? fl) (← answers.mapM storedOfSexp?) (← decisions.mapM bool?)
+      some (.list (.atom "ok" :: r.map yieldToSexp))
+  | .list [.atom "judge-enumeration", p, g, nvars, fuel, sig, depth, maxc, .list answers, complete] => do
+      let P ← programOfSexp? p
+      let pool := termsUpTo (← sigOfSexp? sig) (← depth.nat?)
+      let cands := (assignments pool (← nvars.nat?)).take (← maxc.nat?)
+      let v := judgeEnumeration P (← fuel.nat?) (← goalOfSexp? g) cands (← answers.mapM tmListOfSexp?) (← bool? complete)
+      -- classifier refinement only: unsound answers of programs with coinductive predicates are the F11 shape
+      some (match v with
+        | .notSound i σ =>
+            if P.clauses.any (fun c => P.coind c.head.pred) then
+              .list [.atom "rejected", .atom "slg_coinductive_variant_cycle", .list (sNat i :: σ.map tmToSexp)]
+            else v.toSexp
+        | _ => v.toSexp)
   | .list [.atom "compatible", a, b] =>
       let (x, y) := (answerOfSexp a, answerOfSexp b)
       some (if compatible x y then .list [.atom "accepted", .atom "compatible"]
